@@ -467,12 +467,29 @@ COMMON = (report_fns("stub", "diagn") + bigint_stubs + itemref_items("util") + e
           ast_types("asm") + defs_types("asm") + opts_types + deflist_fns("verify", "asm") + resolver_types)
 
 value_stubs2 = [v for v in value_stubs if v.name != "expect_error_or_usize"]
+# ---- #if blocks whose condition never became a boolean (C03): the failure must carry a diagnostic
+check_leftover_ifs = Fn(
+    "src/asm/resolver/directive_if.rs", "check_leftover_ifs", slot="resolver", ret="res", key="check_leftover_ifs", props=["C03"],
+    ensures=[
+        C("err_is_loud", "res is Err ==> final(report).msgs() > old(report).msgs()", ["C03"]),
+        C("ok_is_clean", "res is Ok ==> final(report).msgs() == old(report).msgs() && final(report).errors() == old(report).errors()", ["C03"]),
+        C("ok_means_no_if_left", "res is Ok ==> forall|j: int| 0 <= j < ast.nodes@.len() ==> !(#[trigger] ast.nodes@[j] is DirectiveIf)", ["C03"]),
+        C("err_means_an_if_is_left", "res is Err ==> exists|j: int| 0 <= j < ast.nodes@.len() && #[trigger] ast.nodes@[j] is DirectiveIf", ["C03"]),
+        C("parents_balanced", "final(report).parents() == old(report).parents()", ["C03"]),
+    ],
+    for_to_while=[1],
+    loops={1: Loop(invariant=[
+        C("clean_so_far", "report.msgs() == old(report).msgs() && report.errors() == old(report).errors() && report.parents() == old(report).parents()"),
+        C("no_if_so_far", "verif_next_1 <= ast.nodes@.len() && forall|j: int| 0 <= j < verif_next_1 ==> !(#[trigger] ast.nodes@[j] is DirectiveIf)"),
+    ], decreases="ast.nodes@.len() - verif_next_1")},
+)
+
 UNIT = Unit(
     "U-resolver", "u_resolver/skeleton.rs",
     items=COMMON + [
               bits_until_alignment, can_guess, get_output_position, get_address, eval_address, advance_address,
               merge, iter_new, iter_next, resolve_once,
-              resolve_label, resolve_res, resolve_align, resolve_addr, resolve_assert, eval_stub, eval_certain_stub, deflist_define, bankdef_define,
+              resolve_label, resolve_res, resolve_align, resolve_addr, resolve_assert, eval_stub, eval_certain_stub, check_leftover_ifs, deflist_define, bankdef_define,
               asm_query_type, asm_result_type, asm_resolve_once_stub, asm_resolve_iteratively, resolve_data_element, resolve_encoding_stub, resolve_instruction, resolve_constant] + value_stubs2 + value_verified,
     serves=["C01", "C02", "C03", "C06", "C09", "C19"],
     description="asm::resolver: address arithmetic (iter.rs), one resolution pass (resolve_once) and the per-item resolvers for labels, #res, #align, #addr, #assert",
